@@ -73,6 +73,9 @@ structure IterEntry where
   size : Nat
   link : Option Bytes
   data : Option ExpandResult      -- regular files: the result of reading the file stream to its end
+  devMajor : Nat := 0
+  devMinor : Nat := 0
+  xattr : List (Bytes × Bytes) := []
   deriving Repr
 
 inductive IterEnd | eof | err
@@ -101,12 +104,12 @@ def iterLoop (repaired : Bool) : Nat → Bytes → Nat → List IterEntry → Li
           let link := if fmt mode = S_IFLNK then d.link else none
           if isReg then
             let r := expand d.sparse d.actualSize d.recordSize s'
-            let e : IterEntry := ⟨nm, mode, d.hardLink, d.uid, d.gid, d.mtime, size, link, some r⟩
+            let e : IterEntry := ⟨nm, mode, d.hardLink, d.uid, d.gid, d.mtime, size, link, some r, d.devMajor, d.devMinor, d.xattr⟩
             match r.ending with
             | .corrupted => (acc ++ [e], .err)                                   -- iterator state poisoned by `drop_parent`
             | .eof => iterLoop repaired f r.stream (r.recordSize + pad) (acc ++ [e])
           else
-            iterLoop repaired f s' (d.recordSize + pad) (acc ++ [⟨nm, mode, d.hardLink, d.uid, d.gid, d.mtime, size, link, none⟩])
+            iterLoop repaired f s' (d.recordSize + pad) (acc ++ [⟨nm, mode, d.hardLink, d.uid, d.gid, d.mtime, size, link, none, d.devMajor, d.devMinor, d.xattr⟩])
 
 def iterate (s : Bytes) : List IterEntry × IterEnd := iterLoop true (s.length / 512 + 2) s 0 []
 
